@@ -26,6 +26,12 @@ pub struct Case {
     /// the server does not know the password (ServerParams::passwordless): whatever it sends in the final round must be
     /// refused, the honestly computed key + 1 included
     pub passwordless: bool,
+    /// flag bits ADDED to the CHALLENGE (bits the client never asks for), and, for a password-less server, how it guesses the
+    /// session key from what it saw (ServerParams::passwordless_guess)
+    #[serde(default)]
+    pub challenge_with: u32,
+    #[serde(default)]
+    pub guess: u8,
 }
 
 pub struct C01 {
@@ -305,14 +311,14 @@ impl Prop for C01 {
                 let len = honest.len();
                 self.honest_len.insert((ci, format!("{:?}", cert)), len);
                 let full = tier == Tier::Thorough || (ci == 0 && cert == Cert::A) || (ci == 4 && cert == Cert::B);
-                cs.push(Case { cfg_id: ci, cert, reply: FinalReply::Honest, challenge_without: 0, replay_after_reuse: false, replay_sessions: (0, true), passwordless: false });
+                cs.push(Case { cfg_id: ci, cert, reply: FinalReply::Honest, challenge_without: 0, replay_after_reuse: false, replay_sessions: (0, true), passwordless: false, challenge_with: 0, guess: 0 });
                 let others: Vec<Vec<u8>> = match cert {
                     Cert::A => vec![key_b.clone(), key_m.clone()],
                     Cert::B => vec![key_a.clone(), key_m.clone()],
                     _ => vec![key_a.clone(), key_b.clone()],
                 };
                 for r in structured(&others) {
-                    cs.push(Case { cfg_id: ci, cert, reply: r, challenge_without: 0, replay_after_reuse: false, replay_sessions: (0, true), passwordless: false });
+                    cs.push(Case { cfg_id: ci, cert, reply: r, challenge_without: 0, replay_after_reuse: false, replay_sessions: (0, true), passwordless: false, challenge_with: 0, guess: 0 });
                 }
                 // every proper prefix of the value, correctly sealed (the value must be compared as a whole)
                 let klen = match cert {
@@ -322,19 +328,19 @@ impl Prop for C01 {
                     _ => key_a.len(),
                 };
                 for n in (0..klen).step_by(if full { 1 } else { 29 }) {
-                    cs.push(Case { cfg_id: ci, cert, reply: FinalReply::SealedPrefix(n), challenge_without: 0, replay_after_reuse: false, replay_sessions: (0, true), passwordless: false });
+                    cs.push(Case { cfg_id: ci, cert, reply: FinalReply::SealedPrefix(n), challenge_without: 0, replay_after_reuse: false, replay_sessions: (0, true), passwordless: false, challenge_with: 0, guess: 0 });
                 }
                 let step = if full { 1 } else { 13 };
                 for bit in (0..len * 8).step_by(step) {
-                    cs.push(Case { cfg_id: ci, cert, reply: FinalReply::FlipBit(bit), challenge_without: 0, replay_after_reuse: false, replay_sessions: (0, true), passwordless: false });
+                    cs.push(Case { cfg_id: ci, cert, reply: FinalReply::FlipBit(bit), challenge_without: 0, replay_after_reuse: false, replay_sessions: (0, true), passwordless: false, challenge_with: 0, guess: 0 });
                 }
                 for n in (0..len).step_by(if full { 1 } else { 7 }) {
-                    cs.push(Case { cfg_id: ci, cert, reply: FinalReply::Truncate(n), challenge_without: 0, replay_after_reuse: false, replay_sessions: (0, true), passwordless: false });
+                    cs.push(Case { cfg_id: ci, cert, reply: FinalReply::Truncate(n), challenge_without: 0, replay_after_reuse: false, replay_sessions: (0, true), passwordless: false, challenge_with: 0, guess: 0 });
                 }
                 if full {
                     for d in -256i64..=256 {
                         if d != 1 {
-                            cs.push(Case { cfg_id: ci, cert, reply: FinalReply::Offset(d), challenge_without: 0, replay_after_reuse: false, replay_sessions: (0, true), passwordless: false });
+                            cs.push(Case { cfg_id: ci, cert, reply: FinalReply::Offset(d), challenge_without: 0, replay_after_reuse: false, replay_sessions: (0, true), passwordless: false, challenge_with: 0, guess: 0 });
                         }
                     }
                     let keylen = if cert == Cert::B { key_b.len() } else { key_a.len() };
@@ -343,7 +349,7 @@ impl Prop for C01 {
                             if j == 0 && !neg {
                                 continue; // + 2^0 is the honest value
                             }
-                            cs.push(Case { cfg_id: ci, cert, reply: FinalReply::Pow2(j, neg), challenge_without: 0, replay_after_reuse: false, replay_sessions: (0, true), passwordless: false });
+                            cs.push(Case { cfg_id: ci, cert, reply: FinalReply::Pow2(j, neg), challenge_without: 0, replay_after_reuse: false, replay_sessions: (0, true), passwordless: false, challenge_with: 0, guess: 0 });
                         }
                     }
                 }
@@ -352,17 +358,17 @@ impl Prop for C01 {
         // carry propagation of key + 1: a raw 32-byte key starting with 0xFF (Ed25519), every offset -300..300
         let key_ff = acceptor(Cert::Ed25519FF)?.1;
         for ci in [0usize, 1] {
-            cs.push(Case { cfg_id: ci, cert: Cert::Ed25519FF, reply: FinalReply::Honest, challenge_without: 0, replay_after_reuse: false, replay_sessions: (0, true), passwordless: false });
+            cs.push(Case { cfg_id: ci, cert: Cert::Ed25519FF, reply: FinalReply::Honest, challenge_without: 0, replay_after_reuse: false, replay_sessions: (0, true), passwordless: false, challenge_with: 0, guess: 0 });
             for r in structured(&[key_a.clone(), key_b.clone()]) {
                 // a "prefix" as long as the (32-byte) key is the honest value itself
                 if matches!(r, FinalReply::SealedPrefix(n) if n >= key_ff.len()) {
                     continue;
                 }
-                cs.push(Case { cfg_id: ci, cert: Cert::Ed25519FF, reply: r, challenge_without: 0, replay_after_reuse: false, replay_sessions: (0, true), passwordless: false });
+                cs.push(Case { cfg_id: ci, cert: Cert::Ed25519FF, reply: r, challenge_without: 0, replay_after_reuse: false, replay_sessions: (0, true), passwordless: false, challenge_with: 0, guess: 0 });
             }
             for d in -300i64..=300 {
                 if d != 1 {
-                    cs.push(Case { cfg_id: ci, cert: Cert::Ed25519FF, reply: FinalReply::Offset(d), challenge_without: 0, replay_after_reuse: false, replay_sessions: (0, true), passwordless: false });
+                    cs.push(Case { cfg_id: ci, cert: Cert::Ed25519FF, reply: FinalReply::Offset(d), challenge_without: 0, replay_after_reuse: false, replay_sessions: (0, true), passwordless: false, challenge_with: 0, guess: 0 });
                 }
             }
             for j in 0..key_ff.len() * 8 {
@@ -370,7 +376,7 @@ impl Prop for C01 {
                     if j == 0 && !neg {
                         continue;
                     }
-                    cs.push(Case { cfg_id: ci, cert: Cert::Ed25519FF, reply: FinalReply::Pow2(j, neg) , challenge_without: 0, replay_after_reuse: false, replay_sessions: (0, true), passwordless: false });
+                    cs.push(Case { cfg_id: ci, cert: Cert::Ed25519FF, reply: FinalReply::Pow2(j, neg) , challenge_without: 0, replay_after_reuse: false, replay_sessions: (0, true), passwordless: false, challenge_with: 0, guess: 0 });
                 }
             }
         }
@@ -378,14 +384,14 @@ impl Prop for C01 {
         for without in [vref::ntlm::F_SIGN, vref::ntlm::F_ALWAYS_SIGN, vref::ntlm::F_SEAL, vref::ntlm::F_SIGN | vref::ntlm::F_ALWAYS_SIGN, vref::ntlm::F_56, vref::ntlm::F_TARGET_TYPE_SERVER] {
             for ci in [0usize, 1, 4] {
                 let cert = Cert::A;
-                cs.push(Case { cfg_id: ci, cert, reply: FinalReply::Honest, challenge_without: without, replay_after_reuse: false, replay_sessions: (0, true), passwordless: false });
+                cs.push(Case { cfg_id: ci, cert, reply: FinalReply::Honest, challenge_without: without, replay_after_reuse: false, replay_sessions: (0, true), passwordless: false, challenge_with: 0, guess: 0 });
                 for r in structured(&[key_b.clone(), key_m.clone()]) {
-                    cs.push(Case { cfg_id: ci, cert, reply: r, challenge_without: without, replay_after_reuse: false, replay_sessions: (0, true), passwordless: false });
+                    cs.push(Case { cfg_id: ci, cert, reply: r, challenge_without: without, replay_after_reuse: false, replay_sessions: (0, true), passwordless: false, challenge_with: 0, guess: 0 });
                 }
                 // every bit of the 16-byte signature that precedes the sealed value, and a few beyond
                 let len = *self.honest_len.get(&(ci, format!("{:?}", cert))).unwrap_or(&0);
                 for bit in (0..len * 8).step_by(if tier == Tier::Thorough { 1 } else { 5 }) {
-                    cs.push(Case { cfg_id: ci, cert, reply: FinalReply::FlipBit(bit), challenge_without: without, replay_after_reuse: false, replay_sessions: (0, true), passwordless: false });
+                    cs.push(Case { cfg_id: ci, cert, reply: FinalReply::FlipBit(bit), challenge_without: without, replay_after_reuse: false, replay_sessions: (0, true), passwordless: false, challenge_with: 0, guess: 0 });
                 }
             }
         }
@@ -395,32 +401,46 @@ impl Prop for C01 {
             for ci in [0usize, 1, 4] {
                 for cert in [Cert::A, Cert::B] {
                     for reply in [FinalReply::Honest, FinalReply::Version(6), FinalReply::Offset(0), FinalReply::ClientDirectionKeys] {
-                        cs.push(Case { cfg_id: ci, cert, reply, challenge_without: without, replay_after_reuse: false, replay_sessions: (0, true), passwordless: true });
+                        cs.push(Case { cfg_id: ci, cert, reply, challenge_without: without, replay_after_reuse: false, replay_sessions: (0, true), passwordless: true, challenge_with: 0, guess: 0 });
                     }
                 }
             }
         }
+        // the same server under CHALLENGE flag bits the client never asked for (LM_KEY, REQUEST_NON_NT_SESSION_KEY, both, and
+        // five others), with three more ways of guessing the session key from public data: the field unwrapped with a key
+        // made of the first 8 bytes of the LM response, of zeros, of the server challenge
+        for with in [0x0040_0000u32, 0x80, 0x0040_0080, 0x0000_1000, 0x0000_2000, 0x0001_0000, 0x0010_0000, 0x0200_0000, 0x0040_0000 | vref::ntlm::F_56] {
+            for guess in 0..=3u8 {
+                for ci in [0usize, 4] {
+                    for reply in [FinalReply::Honest, FinalReply::Offset(0)] {
+                        cs.push(Case { cfg_id: ci, cert: Cert::A, reply, challenge_without: 0, replay_after_reuse: false, replay_sessions: (0, true), passwordless: true, challenge_with: with, guess });
+                    }
+                }
+            }
+            // and the honest server under those flags is accepted
+            cs.push(Case { cfg_id: 0, cert: Cert::A, reply: FinalReply::Honest, challenge_without: 0, replay_after_reuse: false, replay_sessions: (0, true), passwordless: false, challenge_with: with, guess: 0 });
+        }
         // one authentication object used for two sessions: nothing of the first may make a replayed reply acceptable
         for ci in [0usize, 1, 2, 3] {
             for cert in [Cert::A, Cert::B] {
-                cs.push(Case { cfg_id: ci, cert, reply: FinalReply::Honest, challenge_without: 0, replay_after_reuse: true, replay_sessions: (0, true), passwordless: false });
+                cs.push(Case { cfg_id: ci, cert, reply: FinalReply::Honest, challenge_without: 0, replay_after_reuse: true, replay_sessions: (0, true), passwordless: false, challenge_with: 0, guess: 0 });
             }
         }
         // a certificate cloning issuer and serial number of one the thread connected to before, with another key
         for ci in [0usize, 1, 2, 3] {
             for a_first in [true, false] {
-                cs.push(Case { cfg_id: ci, cert: Cert::AClone, reply: FinalReply::Honest, challenge_without: 0, replay_after_reuse: true, replay_sessions: (1, a_first), passwordless: false });
+                cs.push(Case { cfg_id: ci, cert: Cert::AClone, reply: FinalReply::Honest, challenge_without: 0, replay_after_reuse: true, replay_sessions: (1, a_first), passwordless: false, challenge_with: 0, guess: 0 });
             }
         }
         // the same user and domain with another password later on the same thread (honest servers: all accepted)
         for ci in 0..configs().len() {
-            cs.push(Case { cfg_id: ci, cert: Cert::A, reply: FinalReply::Honest, challenge_without: 0, replay_after_reuse: true, replay_sessions: (3, true), passwordless: false });
+            cs.push(Case { cfg_id: ci, cert: Cert::A, reply: FinalReply::Honest, challenge_without: 0, replay_after_reuse: true, replay_sessions: (3, true), passwordless: false, challenge_with: 0, guess: 0 });
         }
         // 70 sessions in a row on one thread with the real random generator (one object / a fresh one each time): the
         // reply recorded in the first never becomes acceptable, whatever is pooled, cached or counted per thread
         for (ci, cert) in [(0usize, Cert::A), (3, Cert::B)] {
             for same in [true, false] {
-                cs.push(Case { cfg_id: ci, cert, reply: FinalReply::Honest, challenge_without: 0, replay_after_reuse: true, replay_sessions: (70, same), passwordless: false });
+                cs.push(Case { cfg_id: ci, cert, reply: FinalReply::Honest, challenge_without: 0, replay_after_reuse: true, replay_sessions: (70, same), passwordless: false, challenge_with: 0, guess: 0 });
             }
         }
         self.cases = cs;
@@ -447,7 +467,7 @@ impl Prop for C01 {
         json!({"idx": idx, "config": configs()[c.cfg_id], "certificate": c.cert, "final_round_reply": c.reply, "server_knows_the_password": !c.passwordless, "challenge_flags_left_out": format!("{:#x}", c.challenge_without)})
     }
     fn rule(&self) -> String {
-        "cases = (connector configuration, server certificate, reply of the server in the final CredSSP round). Configurations: 3 credential sets x password|hash x {plain, restricted admin, blank credentials}; certificates RSA-2048, EC P-256, EC P-521 (every DER length of the round then lies in 128..255) (+ an untrusted RSA key for the relay case). Replies: honest; every single-bit flip of the honest TSRequest; key+d for every d in [-256,256] except 1 and key +- 2^j for every j up to 248, correctly sealed; sealed with client-to-server keys / another session key / wrong signing key / wrong sealing key / advanced cipher stream; honest reply for another certificate's key (relay); reflection of the client's token; forged tokens (a signature header the server cannot have computed followed by 0..5, 15..17 or 270 arbitrary bytes); every truncation; extensions; the honest value re-encoded as BER-but-not-DER (long-form lengths everywhere / only on the version field, exactly one redundant leading zero octet on every length / on the outer SEQUENCE / on the OCTET STRING, indefinite-length outer SEQUENCE / [3] wrapper, constructed OCTET STRING) which CredSSP's DER rules make a malformed encoding and which must be refused; extra field, missing/empty pubKeyAuth, wrong context tag, versions 0/3/6; EOF. Full alphabet for two configurations in quick (every 13th bit / 7th truncation elsewhere), for all in thorough. Also: an Ed25519 certificate whose raw key starts with 0xFF (carry of key+1) with every offset -300..300 and +-2^j; the CHALLENGE of the earlier round leaving out SIGN / ALWAYS_SIGN / SEAL / 56 / TARGET_TYPE flags x structured replies x bit flips. Also: a server that does not know the password and takes the EncryptedRandomSessionKey field of the AUTHENTICATE message for the session key, under 8 CHALLENGE flag sets (with and without KEY_EXCH, SEAL, 128, 56, extended session security) x 4 replies sealed under those keys: all must be refused; wrong values sealed correctly in TSRequests announcing CredSSP versions 2, 3, 5, 6, 2^31-1. Also: one authentication object (Ntlm) used for two sessions through x224::Client::connect, the second server replaying the first server's final reply (4 configurations x 2 certificates); 70 sessions in a row on one thread with the real random generator, on one Ntlm object and on a fresh one each time, every server after the first replaying the first server's reply; an honest connection to certificate A followed on the same thread by a server presenting a certificate with A's issuer and serial number but another key that relays the proof for A's key (and the other way round), then an honest connection to it; three honest connections in a row for the same user and domain with the configured password, another one, and the first again (every configuration). Oracle: honest => credentials released and well formed; must-reject => connect returns Err, the server's TLS endpoint receives zero application bytes after its reply, not one raw byte (TLS alert or closure record) is written on the transport after it, and the client does not ask the (still open) transport for more bytes after the reply was delivered; don't-care (same integer, other spelling) => if accepted the value was right. Non-trivial: every reply but the honest one.".into()
+        "cases = (connector configuration, server certificate, reply of the server in the final CredSSP round). Configurations: 3 credential sets x password|hash x {plain, restricted admin, blank credentials}; certificates RSA-2048, EC P-256, EC P-521 (every DER length of the round then lies in 128..255) (+ an untrusted RSA key for the relay case). Replies: honest; every single-bit flip of the honest TSRequest; key+d for every d in [-256,256] except 1 and key +- 2^j for every j up to 248, correctly sealed; sealed with client-to-server keys / another session key / wrong signing key / wrong sealing key / advanced cipher stream; honest reply for another certificate's key (relay); reflection of the client's token; forged tokens (a signature header the server cannot have computed followed by 0..5, 15..17 or 270 arbitrary bytes); every truncation; extensions; the honest value re-encoded as BER-but-not-DER (long-form lengths everywhere / only on the version field, exactly one redundant leading zero octet on every length / on the outer SEQUENCE / on the OCTET STRING, indefinite-length outer SEQUENCE / [3] wrapper, constructed OCTET STRING) which CredSSP's DER rules make a malformed encoding and which must be refused; extra field, missing/empty pubKeyAuth, wrong context tag, versions 0/3/6; EOF. Full alphabet for two configurations in quick (every 13th bit / 7th truncation elsewhere), for all in thorough. Also: an Ed25519 certificate whose raw key starts with 0xFF (carry of key+1) with every offset -300..300 and +-2^j; the CHALLENGE of the earlier round leaving out SIGN / ALWAYS_SIGN / SEAL / 56 / TARGET_TYPE flags x structured replies x bit flips. Also: a server that does not know the password and takes the EncryptedRandomSessionKey field of the AUTHENTICATE message for the session key, under 8 CHALLENGE flag sets (with and without KEY_EXCH, SEAL, 128, 56, extended session security) x 4 replies sealed under those keys: all must be refused; the same under 9 sets of CHALLENGE flag bits the client never asks for (LM_KEY, REQUEST_NON_NT_SESSION_KEY, ...) x 4 ways of guessing the session key from public data (the field itself, the field unwrapped with the first 8 bytes of the LM response / zeros / the server challenge); wrong values sealed correctly in TSRequests announcing CredSSP versions 2, 3, 5, 6, 2^31-1. Also: one authentication object (Ntlm) used for two sessions through x224::Client::connect, the second server replaying the first server's final reply (4 configurations x 2 certificates); 70 sessions in a row on one thread with the real random generator, on one Ntlm object and on a fresh one each time, every server after the first replaying the first server's reply; an honest connection to certificate A followed on the same thread by a server presenting a certificate with A's issuer and serial number but another key that relays the proof for A's key (and the other way round), then an honest connection to it; three honest connections in a row for the same user and domain with the configured password, another one, and the first again (every configuration). Oracle: honest => credentials released and well formed; must-reject => connect returns Err, the server's TLS endpoint receives zero application bytes after its reply, not one raw byte (TLS alert or closure record) is written on the transport after it, and the client does not ask the (still open) transport for more bytes after the reply was delivered; don't-care (same integer, other spelling) => if accepted the value was right. Non-trivial: every reply but the honest one.".into()
     }
     fn assumptions(&self) -> Vec<String> {
         vec![
@@ -477,6 +497,8 @@ impl Prop for C01 {
         }
         let mut p = ServerParams { selected: 2, final_reply: c.reply.clone(), passwordless: c.passwordless, ..Default::default() };
         p.ntlm.flags &= !c.challenge_without;
+        p.ntlm.flags |= c.challenge_with;
+        p.passwordless_guess = c.guess;
         let t = match tls_connect(&cfg, p, vec![], c.cert) {
             Ok(t) => t,
             Err(e) => return Outcome::fail("setup", "machinery", e),
